@@ -514,9 +514,12 @@ extern int total_queries;
         case CIF_LIST_KIND: \
         case CIF_TABLE_KIND: \
             _blob = (const void *) sqlite3_column_blob(_stmt, _col_ofs + 2); \
-            if ((_blob != NULL) && (cif_value_deserialize( \
-                    _blob, (size_t) sqlite3_column_bytes(_stmt, _col_ofs + 2), _value) == CIF_OK)) { \
-                break; \
+            if (_blob != NULL) { \
+                /* report the deserializer's own code: it fails for lack of memory as well as for malformed data */ \
+                int _dresult = cif_value_deserialize( \
+                        _blob, (size_t) sqlite3_column_bytes(_stmt, _col_ofs + 2), _value); \
+                if (_dresult == CIF_OK) break; \
+                FAIL(errlabel, _dresult); \
             } \
             FAIL(errlabel, CIF_INTERNAL_ERROR); \
         case CIF_UNK_KIND: \
